@@ -300,3 +300,7 @@ def run(chk, repo):
                ': the first caller decides the answer for every later caller that differs only in the omitted attribute (e.g. the same junction coordinates '
                'asked for two overlapping genes), so records are emitted for annotated forms or suppressed for novel ones depending on event order',
                key=f"{f_.qual}::memo-key", fn=f_.qual)
+    # ------------------------------------------------------------------ shared: option plumbing by name
+    from rules.shared import optname
+    chk.clauses.append('C16.h (shared R-THREAD) an option value bound to a name that is itself a CLI option carries that very option')
+    optname(chk, repo, 'C16.h', ['cli.parse_rmats'], floor=0)
